@@ -7,7 +7,7 @@ from ..util import stream
 
 PROP = "C17"
 LEVEL = "exploration"
-N = {"quick": 6000, "thorough": 150000}
+N = {"quick": 30000, "thorough": 600000}
 RULE = ("seeded positive-duration instance (flexible, irregular, unused machine ids) x graph builder (4) x "
         "remove-machine/remove-job options x with/without a pre-existing IsCompletedObserver x filter none / "
         "dominated x dispatch history with rejected requests and resets; after every dispatch the removed-node "
